@@ -68,8 +68,34 @@ fn cdef(d: &Def) -> String {
     )
 }
 
+/// the random-program stream of C05 (also the stream the derive tier validates the interner on):
+/// the `k`-th program and its settings
+pub fn next_program(rng: &mut Rng, k: usize) -> (Program, SettingsSpec) {
+    let cfg = GenCfg { no_type_name_pct: if k % 10 == 0 { 30 } else { 0 }, ..GenCfg::default() };
+    let mut p = reggen::rand_program(rng, &cfg);
+    // several instantiations of the same definitions
+    let extra = rng.below(4);
+    for _ in 0..extra {
+        let d = rng.below(p.defs.len());
+        let args: Vec<Src> = { let cps = reggen::compact_params(&p.defs[d]); (0..p.defs[d].params.len()).map(|i| if cps.contains(&i) { Src::Prim("u32") } else { reggen::rand_arg(rng, 0) }).collect() };
+        p.roots.push(Src::App(d, args));
+    }
+    let mut s = SettingsSpec::default();
+    if rng.chance(1, 3) {
+        s.alloc = Some("::alloc".into());
+    }
+    if rng.chance(1, 4) {
+        s.codec = false;
+    }
+    (p, s)
+}
+
+pub fn stream_rng(seed: u64) -> Rng {
+    Rng::new(seed ^ 0xc05)
+}
+
 pub fn generate(tier: &str, seed: u64, out: &Path, nshards: usize, replay: Option<&Path>) -> Meta {
-    let mut rng = Rng::new(seed ^ 0xc05);
+    let mut rng = stream_rng(seed);
     let evals = [
         ("corr_ops", "fun c => corr_ops (c5_tg c)"),
         ("corr_gen", "fun c => corr_gen (c5_tg c)"),
@@ -80,22 +106,36 @@ pub fn generate(tier: &str, seed: u64, out: &Path, nshards: usize, replay: Optio
         ("hyp_all_cf", "hyp_all_cf"),
         ("hyp_some_cf_generic", "hyp_some_cf_generic"),
         ("hyp_gen_ok", "fun c => hyp_gen_ok (c5_tg c)"),
+        ("corr_registry_of", "corr_registry_of"),
+        ("hyp_registry_of", "hyp_registry_of"),
+        ("hyp_prelude_nodocs", "hyp_prelude_nodocs"),
+        ("hyp_identity_duplicates", "hyp_identity_duplicates"),
     ];
     let mut shards = Shards::new(out, nshards, HEADER, "c05_case", &evals);
     let mut meta = Meta::new("C05");
     let mut seen: HashSet<String> = HashSet::new();
     let mut nontrivial = 0usize;
+    let mut dup_programs = 0usize;
+    let mut dup_entries = 0usize;
     let mut push = |stream: &str, p: &Program, spec0: Option<SettingsSpec>, shards: &mut Shards, meta: &mut Meta| {
-        let (rj, insts) = reggen::build_with_insts(p);
+        let (rj, insts, labels) = reggen::build_labelled(p);
+        let dups = reggen::identity_duplicates(&labels);
+        if dups > 0 {
+            dup_programs += 1;
+            dup_entries += dups;
+        }
         let reg = reggen::to_registry(&rj);
         let mut spec = spec0.unwrap_or_default();
         spec.ops.extend(bit_order_subs(&reg));
         let o = observe_tg(&reg, &spec);
         let term = format!(
-            "(mk_c05 (mk_program {} {}) {} {})",
+            "(mk_c05 (mk_program {} {}) {} {} {})",
             clist(p.defs.iter().map(cdef)),
             clist(p.roots.iter().map(csrc)),
             clist(insts.iter().map(|(d, a)| format!("({}%nat, {})", d, clist(a.iter().map(csrc))))),
+            // per id: the closed source type the entry stands for, in the normal form of the Coq
+            // source model (`canon`); None = bit-order marker
+            clist(labels.iter().map(|l| copt(l.as_ref().map(|x| csrc(&reggen::canon(x)))))),
             coq_case(stream, &reg, &spec, &o, &None)
         );
         let generic = p.defs.iter().any(|d| d.params.iter().any(|(_, s)| !*s));
@@ -119,29 +159,21 @@ pub fn generate(tier: &str, seed: u64, out: &Path, nshards: usize, replay: Optio
         s.root = "root".into();
         push(&format!("corpus:{n}"), &p, Some(s), &mut shards, &mut meta);
     }
+    // scale-info's type identity: registries with entries that differ only in the TypeId they were
+    // registered under (validated against the real derive by the derive tier)
+    for (n, p) in crate::corpus::identity_programs() {
+        push(&format!("identity:{n}"), &p, None, &mut shards, &mut meta);
+    }
     let scale = if tier == "thorough" { 8 } else { 1 };
     for k in 0..(400 * scale) {
-        let cfg = GenCfg { no_type_name_pct: if k % 10 == 0 { 30 } else { 0 }, ..GenCfg::default() };
-        let mut p = reggen::rand_program(&mut rng, &cfg);
-        // several instantiations of the same definitions
-        let extra = rng.below(4);
-        for _ in 0..extra {
-            let d = rng.below(p.defs.len());
-            let args: Vec<Src> = { let cps = reggen::compact_params(&p.defs[d]); (0..p.defs[d].params.len()).map(|i| if cps.contains(&i) { Src::Prim("u32") } else { reggen::rand_arg(&mut rng, 0) }).collect() };
-            p.roots.push(Src::App(d, args));
-        }
-        let mut s = SettingsSpec::default();
-        if rng.chance(1, 3) {
-            s.alloc = Some("::alloc".into());
-        }
-        if rng.chance(1, 4) {
-            s.codec = false;
-        }
+        let (p, s) = next_program(&mut rng, k);
         push("random-program", &p, Some(s), &mut shards, &mut meta);
     }
     meta.evaluations = shards.len();
+    meta.extra = json!({"programs_with_identity_duplicates": dup_programs, "identity_duplicate_entries": dup_entries,
+        "identity_duplicates": "entries scale-info registers separately although they stand for the same type up to Box / VecDeque (TypeId of one step of Identity, reggen::tid_key)"});
     meta.distinct_nontrivial = nontrivial;
-    meta.rule = "programs of generic struct/enum definitions in nested modules with several closed instantiations each (arm-coverage corpus + random); the registry is derived by the harness interner in scale-info's order; non-trivial = distinct registry whose program has at least one definition with a non-skipped type parameter".into();
+    meta.rule = "programs of generic struct/enum definitions in nested modules with several closed instantiations each (arm-coverage corpus + random); the registry is derived by the harness interner in scale-info's order and by scale-info's type identity (validated against the real derive in the thorough tier); non-trivial = distinct registry whose program has at least one definition with a non-skipped type parameter".into();
     shards.finish();
     meta
 }
